@@ -17,7 +17,7 @@ ASSUMPTIONS = ['port contract as for C02 (a failing getter leaves its output unt
 
 
 def project(lines):
-    return [l for l in lines if l.startswith(('#', 'tx', 'sleep', 'abort', 'fault', 'bad-op', 'end ', 'fsm', 'tbl', 'map', 'band'))]
+    return [l for l in lines if l.startswith(('#', 'tx', 'sleep', 'abort', 'fault', 'bad-op', 'end ', 'fsm', 'tbl', 'map', 'band', 'st ', 'obs '))]
 
 
 def scenarios(rng):
